@@ -58,9 +58,31 @@ func (v *BlockValidator) ValidateBody(block *types.Block) error {
 		if !v.bc.HasBlock(block.ParentHash(), block.NumberU64()-1) {
 			return consensus.ErrUnknownAncestor
 		}
+		// A block on a pruned ancestor is stored, and may later be executed and
+		// adopted, without passing through here again: make sure its header
+		// commits to its body before reporting the pruned ancestor.
+		if err := v.validateBodyContent(block); err != nil {
+			return err
+		}
 		return consensus.ErrPrunedAncestor
 	}
 	// Header validity is known at this point, check the uncles and transactions
+	header := block.Header()
+	if err := v.engine.VerifyUncles(v.bc, block); err != nil {
+		return err
+	}
+	if hash := types.CalcUncleHash(block.Uncles()); hash != header.UncleHash {
+		return fmt.Errorf("uncle root hash mismatch: have %x, want %x", hash, header.UncleHash)
+	}
+	if hash := types.DeriveSha(block.Transactions()); hash != header.TxHash {
+		return fmt.Errorf("transaction root hash mismatch: have %x, want %x", hash, header.TxHash)
+	}
+	return nil
+}
+
+// validateBodyContent checks the uncles and that the header's uncle and
+// transaction roots match the body.
+func (v *BlockValidator) validateBodyContent(block *types.Block) error {
 	header := block.Header()
 	if err := v.engine.VerifyUncles(v.bc, block); err != nil {
 		return err
